@@ -157,6 +157,21 @@ func runProbe(c Case) (string, *rig.Violation) {
 		b, _ := json.Marshal(r.Routes())
 		obs = append(obs, "routes "+string(b))
 	}
+	// a brand-new Hosts and the package-level helpers know no interceptors: "word" is a regexp here
+	hs := mux.NewHosts(false, "{w:word}.x.com", "b.com")
+	for _, host := range []string{"word.x.com", "abc.x.com", "b.com", "B.COM:80", "c.com"} {
+		r := &http.Request{Method: "GET", URL: &url.URL{Path: "/"}, Host: host, Header: http.Header{}}
+		ctx := types.NewContext()
+		ok := hs.Match(r, ctx)
+		w, _ := ctx.Get("w")
+		ctx.Destroy()
+		obs = append(obs, fmt.Sprintf("fresh Hosts %s -> %v w=%q", host, ok, w))
+		if want := host == "word.x.com" || host == "b.com" || host == "B.COM:80"; ok != want {
+			return "", rig.Violf("fresh-hosts", "a brand-new Hosts with domains {w:word}.x.com, b.com answers %v for host %q", ok, host)
+		}
+	}
+	u, err := mux.URL("/p/{w:word}/{n:digit}", map[string]string{"w": "a b", "n": "x"})
+	obs = append(obs, fmt.Sprintf("mux.URL -> %q %v; CheckSyntax -> %v", u, err, mux.CheckSyntax("/{a:word}/{b:[}")))
 	b, _ := json.Marshal(obs)
 	return string(b), nil
 }
@@ -178,6 +193,8 @@ func runInst(in Inst, tag string) *rig.Violation {
 	switch in.Kind {
 	case "hosts":
 		hs := mux.NewHosts(in.Lock)
+		// interceptors of its own, under names other instances use as plain regexps
+		hs.RegisterInterceptor(func(s string) bool { return len(s) > 0 }, "word", "digit")
 		live := map[string]bool{}
 		for i, d := range in.Doms {
 			if i%3 == 2 {
